@@ -311,6 +311,7 @@ impl Monitor for C08 {
             "regrants_after_expiry_ok",
             "admin_relays_not_deducted",
             "race_permutations_run",
+            "migrations_run",
         ]
     }
     fn rule(&self) -> &'static str {
@@ -339,7 +340,28 @@ impl Monitor for C08 {
         let mut led = Ledger::default();
         let mut pre = p.snap();
         let n = h.tier.pick(80, 120);
-        for _ in 0..n {
+        let migrate_at = if h.idx % 3 == 1 { h.rng.range(5, 60) as usize } else { usize::MAX };
+        for i in 0..n {
+            if i == migrate_at {
+                let v = *h.rng.pick(&["0.13.4", "1.1.2", "1.0.0", "0.9.1", "2.0.0"]);
+                cw2::set_contract_version(&mut p.w.store, "crates.io:cw1-subkeys", v).unwrap();
+                let r = p.w.tx(|d, e| cw1_subkeys::contract::migrate(d, e, cosmwasm_std::Empty {}));
+                h.out.evaluations += 1;
+                h.note(format!("migrate from {v} => {}", r.class()));
+                if r.is_ok() {
+                    h.out.count("migrations_run");
+                }
+                let post = p.snap();
+                // an allowance changes only by an admin's increase / decrease or by its own spending
+                let same = pre.raw.iter().all(|(k, a)| post.raw.get(k).map(|b| b.nonzero() == a.nonzero() && b.exp == a.exp).unwrap_or(a.nonzero().is_empty()))
+                    && post.raw.keys().all(|k| pre.raw.contains_key(k))
+                    && pre.perms == post.perms;
+                if !h.check(same, "C08/migrate/allowances-or-permissions-changed-by-migration", || format!("migrate from {v}: {:?} -> {:?}", pre.raw, post.raw)) {
+                    return;
+                }
+                pre = post;
+                continue;
+            }
             if h.rng.chance(1, 5) {
                 let s = pre.clone();
                 gen_advance(&mut h.rng, &mut p, &s);
